@@ -533,10 +533,15 @@ func c16Sim(r *simcore.Run) {
 		r.Logf("signer-%d uses %s (ttl %s)", t, v.how, v.ttl)
 		r.Count("variant:"+v.how, 1)
 	}
+	// the same subject may come through both rules: what is cached for it under one rule is not what the other hands out
+	sameSubject := s.Draw(3, "same-subject") == 2
 	for t := 0; t < nSign; t++ {
 		t := t
 		n := 2 + s.Draw(3, "n-sign")
 		subj := []string{"alice", "bob"}[t]
+		if sameSubject {
+			subj = "alice"
+		}
 		sch.Go(fmt.Sprintf("signer-%d", t), func() {
 			for i := 0; i < n; i++ {
 				simsync.Yield("before-execute")
